@@ -4,6 +4,7 @@ import (
 	"errors"
 
 	"gorm.io/gorm"
+	"gorm.io/gorm/clause"
 	"gorm.io/gorm/internal/verifrt"
 )
 
@@ -148,16 +149,42 @@ func c09Cases() []c09Case {
 	}
 }
 
-func N_C09_Guard(tier int) int { return len(c09Cases()) }
+// every chain family also runs on a RETURNING-capable dialect with
+// Clauses(clause.Returning{}) on the handle: the write is then sent as a query
+func N_C09_Guard(tier int) int { return 2 * len(c09Cases()) }
+
+// writes counts the UPDATE / DELETE statements sent, whether executed or queried (RETURNING)
+func c09Writes(s *Store) int {
+	n := 0
+	for _, e := range s.Log {
+		if (e.Kind == "EXEC" || e.Kind == "QUERY") && (hasPrefix(e.Text, "UPDATE") || hasPrefix(e.Text, "DELETE")) {
+			n++
+		}
+	}
+	return n
+}
 
 func H_C09_Guard(shape int) {
-	c := c09Cases()[shape]
+	cs := c09Cases()
+	c := cs[shape%len(cs)]
+	returning := shape >= len(cs)
+	verifrt.Tag(c.name)
 	s := NewStore()
 	allowCfg := verifrt.Bool("allow_config")
 	allowSess := verifrt.Bool("allow_session")
-	db := openReal(stubDialector{}, s, &gorm.Config{AllowGlobalUpdate: allowCfg})
+	db := openReal(stubDialector{returning: returning}, s, &gorm.Config{AllowGlobalUpdate: allowCfg})
 	if allowSess {
 		db = db.Session(&gorm.Session{AllowGlobalUpdate: true})
+	}
+	if returning && indexStr(c.name, "table") >= 0 {
+		// RETURNING without a model has nothing to scan into (gorm panics in Scan,
+		// whatever the conditions): outside this property
+		verifrt.Reach("outside-claim:returning-without-model")
+		return
+	}
+	if returning {
+		verifrt.Tag("returning")
+		db = db.Clauses(clause.Returning{}).Session(&gorm.Session{})
 	}
 	res, eff := c.run(db)
 	verifrt.Reach("ran")
@@ -166,13 +193,13 @@ func H_C09_Guard(shape int) {
 	missing := errors.Is(res.Error, gorm.ErrMissingWhereClause)
 	if !allowCfg && !allowSess && !eff {
 		verifrt.Assert(missing, "C09.not-rejected")
-		verifrt.Assert(s.Count("EXEC") == 0, "C09.executed")
+		verifrt.Assert(c09Writes(s) == 0, "C09.executed")
 		verifrt.Assert(len(s.Durable) == 0, "C09.changed")
 		verifrt.Assert(s.OpenTx() == 0, "C09.tx-open")
 	}
 	if eff || allowCfg || allowSess {
 		verifrt.Assert(!missing, "C09.wrongly-rejected")
 		verifrt.Assert(res.Error == nil, "C09.error")
-		verifrt.Assert(s.Count("EXEC") == 1, "C09.main-statement")
+		verifrt.Assert(c09Writes(s) == 1, "C09.main-statement")
 	}
 }
